@@ -41,6 +41,14 @@ def generate(seed, tier, enlarged=False):
     from harness import nestmove
     for i in range(n // 3):
         cases.append(nestmove.gen_case(rng))
+    # _add into a store whose children are declared through a re-mapped glob port (oracle only): the glob-topology
+    # stream of C06 with its mid-run _add
+    from harness import globtopo
+    for i in range(n // 5):
+        c = globtopo.gen_case(rng)
+        if c['add_at'] is None:
+            c['add_at'] = rng.choice([0, 1])
+        cases.append(c)
     return cases
 
 
@@ -156,6 +164,15 @@ def run(cases, tier='quick', seed=0):
         nontrivial, stat_key = staticmethod(nestmove.nontrivial), staticmethod(nestmove.stat_key)
         render = staticmethod(nestmove.render)
     me = __import__('harness.c09', fromlist=['x'])
+    from harness import globtopo
+
+    class Glob:
+        __name__ = 'harness.globtopo'
+        IMPORTS, CHECK_FN, BAD_TERM = struct.IMPORTS, struct.CHECK_FN, struct.BAD_TERM
+        run_impl, oracle = staticmethod(globtopo.run_impl), staticmethod(globtopo.oracle)
+        nontrivial, stat_key = staticmethod(globtopo.nontrivial), staticmethod(globtopo.stat_key)
+        render = staticmethod(lambda c, ob: None)
     return common.merge_streams(cases, [
         (lambda c: c['kind'] == 'hist', lambda cs: common.generic_run(me, cs, seed, shard=40)),
-        (lambda c: c['kind'] == 'nestmove', lambda cs: common.generic_run(Nest, cs, seed, shard=40))])
+        (lambda c: c['kind'] == 'nestmove', lambda cs: common.generic_run(Nest, cs, seed, shard=40)),
+        (lambda c: c['kind'] == 'globtopo', lambda cs: common.generic_run(Glob, cs, seed, shard=40))])
